@@ -136,6 +136,11 @@ type Script struct {
 	NHdrOpt      int               `json:"n_header_opts,omitempty"`
 	NTrlOpt      int               `json:"n_trailer_opts,omitempty"`
 	PeerOpt      bool              `json:"peer_opt,omitempty"`
+	// ViaCtx: the handler sets and sends its metadata through the package-level functions of grpc
+	// (grpc.SetHeader / SendHeader / SetTrailer with its context) instead of the stream's methods
+	ViaCtx bool `json:"via_ctx,omitempty"`
+	// CallTimeout > 0: the caller's context carries a deadline that far away
+	CallTimeout time.Duration `json:"call_timeout,omitempty"`
 	ReuseDest    bool              `json:"reuse_dest,omitempty"`     // each side receives every message into one and the same message value
 	CredMD       map[string]string `json:"cred_md,omitempty"`        // metadata of per-RPC credentials attached to the call
 	NoAppendedMD bool              `json:"no_appended_md,omitempty"` // all request metadata goes through NewOutgoingContext
@@ -648,9 +653,9 @@ func (r *Run) runHandlerOps(ctx context.Context, stream grpc.ServerStream) {
 			md := r.mdArg(op.MD)
 			pan := guard(func() {
 				switch {
-				case stream != nil && op.Op == "sethdr":
+				case stream != nil && op.Op == "sethdr" && !r.S.ViaCtx:
 					err = stream.SetHeader(md)
-				case stream != nil:
+				case stream != nil && !r.S.ViaCtx:
 					err = stream.SendHeader(md)
 				case op.Op == "sethdr":
 					err = grpc.SetHeader(ctx, md)
@@ -664,7 +669,7 @@ func (r *Run) runHandlerOps(ctx context.Context, stream grpc.ServerStream) {
 			var err error
 			md := r.mdArg(op.MD)
 			pan := guard(func() {
-				if stream != nil {
+				if stream != nil && !r.S.ViaCtx {
 					stream.SetTrailer(md)
 				} else {
 					err = grpc.SetTrailer(ctx, md)
@@ -806,6 +811,12 @@ func (r *Run) Exec(cc grpc.ClientConnInterface, parent context.Context, watchdog
 	octx := metadata.NewOutgoingContext(parent, base)
 	if len(appended) > 0 {
 		octx = metadata.AppendToOutgoingContext(octx, appended...)
+	}
+	if r.S.CallTimeout > 0 {
+		// a caller with a (distant) deadline: the call is otherwise the same
+		var tcancel context.CancelFunc
+		octx, tcancel = context.WithTimeout(octx, r.S.CallTimeout)
+		defer tcancel()
 	}
 	ctx, cancel := context.WithCancel(octx)
 	r.Ctx, r.Cancel = ctx, cancel
